@@ -72,9 +72,12 @@ type FoldDecl struct {
 }
 
 type InvDecl struct {
-	Name string
-	Tags []string
-	Body Expr
+	Name    string
+	Tags    []string
+	Body    Expr
+	Finding string
+	Region  Expr
+	Text    string
 }
 
 type Clause struct {
@@ -83,6 +86,9 @@ type Clause struct {
 	E    Expr
 	Text string
 	Ord  int
+	// Finding names a known finding whose region is excluded in the ".except" form of the clause.
+	Finding string
+	Region  Expr
 }
 
 type LoopSpec struct {
@@ -103,6 +109,15 @@ type FuncSpec struct {
 	Loops     []LoopSpec
 }
 
+// WitnessReq is one line of the authorisation table: method -> required witness formula.
+type WitnessReq struct {
+	Method string
+	Tags   []string
+	Req    Expr
+	Text   string
+	Safe   bool // the method must never change state
+}
+
 type UFun struct {
 	Name   string
 	Params []Param
@@ -110,6 +125,10 @@ type UFun struct {
 }
 
 type File struct {
+	Module  string      // module name (identifier)
+	Props   []string    // properties this module serves
+	UseMods [][2]string // (package name, module name) pairs whose contracts are visible to callers
+	Witness []WitnessReq
 	UFuns   map[string]*UFun
 	Axioms  []*InvDecl
 	Dialect string
@@ -130,7 +149,7 @@ type parser struct {
 }
 
 var declKw = map[string]bool{"dialect": true, "use": true, "pure": true, "pred": true, "fold": true, "invariant": true,
-	"ghost": true, "lemma": true, "func": true, "ufun": true, "axiom": true, "nofault": true, "requires": true, "ensures": true, "loop": true, "frame": true, "trusted": true}
+	"ghost": true, "lemma": true, "module": true, "props": true, "witness": true, "safe": true, "func": true, "ufun": true, "axiom": true, "nofault": true, "requires": true, "ensures": true, "loop": true, "frame": true, "trusted": true}
 
 func (p *parser) peek() token { return p.toks[p.pos] }
 func (p *parser) next() token { t := p.toks[p.pos]; p.pos++; return t }
@@ -185,8 +204,32 @@ func Parse(src string) (f *File, err error) {
 		switch t.s {
 		case "dialect":
 			f.Dialect = p.ident()
+		case "module":
+			f.Module = p.ident()
+		case "props":
+			for !p.atBoundary() {
+				f.Props = append(f.Props, p.ident())
+				if p.isOp(",") {
+					p.next()
+				}
+			}
 		case "use":
-			f.Uses = append(f.Uses, p.ident())
+			pk := p.ident()
+			f.Uses = append(f.Uses, pk)
+			if !p.atBoundary() {
+				f.UseMods = append(f.UseMods, [2]string{pk, p.ident()})
+			}
+		case "witness", "safe":
+			cur, curLoop = nil, nil
+			w := WitnessReq{Method: p.ident(), Safe: t.s == "safe"}
+			w.Tags = p.tags()
+			if !w.Safe {
+				p.expectOp(":")
+				start := p.peek().line
+				w.Req = p.expr()
+				w.Text = p.textFrom(start)
+			}
+			f.Witness = append(f.Witness, w)
 		case "pure", "pred":
 			if t.s == "pure" && cur != nil && p.atBoundary() {
 				cur.Pure = true
@@ -255,8 +298,11 @@ func Parse(src string) (f *File, err error) {
 			cur, curLoop = nil, nil
 			d := &InvDecl{Name: p.ident()}
 			d.Tags = p.tags()
+			d.Finding, d.Region = p.finding()
 			p.expectOp(":")
+			start := p.peek().line
 			d.Body = p.expr()
+			d.Text = p.textFrom(start)
 			f.Lemmas = append(f.Lemmas, d)
 		case "func":
 			curLoop = nil
@@ -283,6 +329,7 @@ func Parse(src string) (f *File, err error) {
 			}
 			curLoop = nil
 			tags := p.tags()
+			fname, region := p.finding()
 			start := p.peek().line
 			e := p.expr()
 			n := 0
@@ -291,7 +338,7 @@ func Parse(src string) (f *File, err error) {
 					n++
 				}
 			}
-			cur.Clauses = append(cur.Clauses, Clause{Kind: t.s, Tags: tags, E: e, Text: p.textFrom(start), Ord: n})
+			cur.Clauses = append(cur.Clauses, Clause{Kind: t.s, Tags: tags, E: e, Text: p.textFrom(start), Ord: n, Finding: fname, Region: region})
 		case "trusted":
 			cur.Trusted = true
 		case "nofault":
@@ -326,6 +373,19 @@ func (p *parser) textFrom(startLine int) string {
 		parts = append(parts, strings.TrimSpace(p.src[l-1]))
 	}
 	return strings.Join(parts, " ")
+}
+
+// finding parses an optional `finding NAME (region)` prefix of a clause.
+func (p *parser) finding() (string, Expr) {
+	if !p.isKw("finding") {
+		return "", nil
+	}
+	p.next()
+	name := p.ident()
+	p.expectOp("(")
+	r := p.expr()
+	p.expectOp(")")
+	return name, r
 }
 
 func (p *parser) tags() []string {
